@@ -14,10 +14,10 @@ from .mutate import mutate
 from .c02 import check_rollback
 
 LEVEL = 'fault_enumeration'
-BUDGET_S = {'quick': 150, 'thorough': 1500}
+BUDGET_S = {'quick': 220, 'thorough': 1500}
 FAULT_OPS = ('mkdir', 'makedirs', 'rename', 'replace', 'gzip-w', 'gzip-data')
 BOUNDS = {
-    'quick': 'universe U7; skeleton families A3, A4, A5a, A5b, A8 (swap), N3 with success / caught failure modes; histories X, B.X, '
+    'quick': 'universe U7; skeleton families A3, A4, A5a, A5b, A8 (swap), A9 (function lists its own output directory, then reads an input that changed), N3 with success / caught failure modes; histories X, B.X, '
              'B.M.X then one more build; in build X one OSError(EIO) at the j-th call among the library\'s mkdir / makedirs / '
              'rename / replace / open-for-write of the cache, j symbolic (every position reached through feasibility queries); '
              'user code catches it or not (catch hole of the skeleton)',
@@ -41,6 +41,8 @@ def families(tier):
         {'name': 'A4', 'params': {'hist': 'BMX', 'kinds': ['is_dir', 'list_dir'], 'roles': ['o'], 'targets': ['o/d/g'], 'modes': ['ok'],
                                   'mut_paths': ['o/d', 'o/d/g']}, 'weight': 2},
         {'name': 'A8', 'params': {'hist': 'BX', 'kinds': ['is_dir']}, 'weight': 2},
+        {'name': 'A9', 'params': {'hist': 'BMX', 'kinds': ['is_dir', 'list_dir'], 'targets': ['o/d/g'], 'modes': ['ok'],
+                                  'mut_paths': ['in/x'], 'mut_kinds': ['none', 'write']}, 'weight': 2},
         {'name': 'N3', 'params': {'hist': 'BMX', 'universe': UN3, 'kinds': ['is_dir'], 'roles': ['o'], 'bf_modes': ['ok'], 'sb_modes': ['ok'],
                                   'mut_paths': ['o/d', 'o/m', 'o/w'], 'mut_kinds': ['none', 'delete', 'rmtree']}, 'weight': 3},
     ]
@@ -57,7 +59,8 @@ def families(tier):
 class Fault:
     """One OSError at the j-th fault-able call of the armed build."""
 
-    def __init__(self, eng):
+    def __init__(self, eng, ops=None):
+        self.ops = tuple(ops) if ops else FAULT_OPS
         self.eng = eng
         self.j = eng.fresh_int('fault_j', 1, 60)
         self.count = 0
@@ -75,7 +78,7 @@ class Fault:
             env.hooks.remove(self.hook)
 
     def hook(self, op, args, mutating):
-        if op not in FAULT_OPS or self.fired is not None or self.root_failed:
+        if op not in self.ops or self.fired is not None or self.root_failed:
             return
         self.count += 1
         if bool(self.j == self.count):
@@ -86,6 +89,7 @@ class Fault:
 
 def harness(eng, fam, P):
     P = dict(P)
+    PR = P.get('prop', 'C14')          # C02 reuses this harness for failures while the cache file is being written
     bodies = skeleton(eng, fam, P)
     shared = {}
     progs = [Program(eng, b, shared) for b in bodies]
@@ -105,7 +109,7 @@ def harness(eng, fam, P):
                 mutate(eng, w, str(si), P.get('mut_kinds', ['none', 'delete', 'write', 'rmtree', 'file2dir', 'dir2file']), P['mut_paths'])
             else:
                 nb += 1
-                fault = Fault(eng)
+                fault = Fault(eng, P.get('only_ops'))
                 pre = w.fs.snapshot(w.root)
                 prev_created = set(d.state.created_dirs) if w.ref.kind(w.cache) == FILE else set()
                 impl, ref = _build_with_fault(d, prog, fault, w)
@@ -120,21 +124,21 @@ def harness(eng, fam, P):
                     eng.witness('fault-in-backup')
                 if fault.sid is None:
                     # the fault hit the root machinery (cache directory, cache backup, cache write): the build raises it
-                    eng.check('C14.fault-surfaces', impl[0] == 'exc' and isinstance(impl[1], OSError), sig + ('root',),
+                    eng.check(PR + '.fault-surfaces', impl[0] == 'exc' and isinstance(impl[1], OSError), sig + ('root',),
                               info={'impl': repr(impl[1])[:200], 'fault': fault.fired})
                 if impl[0] == 'exc':
                     eng.witness('fault-propagated-rollback')
-                    eng.check('C14.propagated-exception-is-oserror-or-user', True, sig)
-                    check_rollback(eng, w, d, pre, prev_created, ('C14',) + sig)
-                    d.check_same('C14.failed', sig)
+                    eng.check(PR + '.propagated-exception-is-oserror-or-user', True, sig)
+                    check_rollback(eng, w, d, pre, prev_created, (PR,) + sig)
+                    d.check_same(PR + '.failed', sig)
                 else:
                     eng.witness('fault-caught-build-continued')
-                    d.check_same('C14.caught', sig)
-                    eng.check('C14.temp-dir-left', not w.tmp_leftovers(), sig)
-                    eng.check('C14.cache-file-written', w.fs.kind(w.cache) == FILE, sig)
+                    d.check_same(PR + '.caught', sig)
+                    eng.check(PR + '.temp-dir-left', not w.tmp_leftovers(), sig)
+                    eng.check(PR + '.cache-file-written', w.fs.kind(w.cache) == FILE, sig)
                 # ---- one more build without faults: bookkeeping and disk must be in step
                 impl2, ref2 = d.build(prog)
-                d.check_same('C14.next', sig)
+                d.check_same(PR + '.next', sig)
                 break
         eng.sample({'family': fam, 'program': eng.path_info['program'], 'history': hist,
                     'fault_at': list(eng.path_info.get('fault', ()))})
